@@ -203,7 +203,10 @@ def run(ctx):
     # -- robsd-step -R: the fields of a row are the variables; names that are prefixes or extensions of
     # field names, or differ in case, are unknown
     stepf = os.path.join(root, "step.csv")
-    rows = b"step,name,exit,duration,delta,log,user,time,skip\n1,env,0,12,0,001-env.log,root,1700000000,0\n2,kernel,3,3600,-5,002-kernel.log,build,1700000100,0\n"
+    # the third row holds integers at the ends of what an integer field can hold (sign + 19 digits), an empty
+    # string field and the optional fields left to their defaults
+    rows = (b"step,name,exit,duration,delta,log,user,time,skip\n1,env,0,12,0,001-env.log,root,1700000000,0\n2,kernel,3,3600,-5,002-kernel.log,build,1700000100,0\n"
+            b"3,edge,-9223372036854775808,9223372036854775807,-1000000000000000000,,root,-999999999999999999,0\n")
     open(stepf, "wb").write(rows)
     FIELDS = [b"step", b"name", b"exit", b"duration", b"delta", b"log", b"user", b"time", b"skip"]
     near = FIELDS + [f[:k] for f in FIELDS for k in range(1, len(f))] + [f + b"s" for f in FIELDS] + [f.upper() for f in FIELDS] + [b"builddir", b"x"]
@@ -212,7 +215,7 @@ def run(ctx):
         names = [rng.choice(FIELDS) if rng.random() < 0.6 else rng.choice(near) for _ in range(4)]
         lines = [gen_template(rng, names, 0.05) for _ in range(rng.randint(1, 3))]
         content = b"\n".join(lines) + b"\n"
-        sel = rng.choice(["1", "2", "-1"])
+        sel = rng.choice(["1", "2", "-1", "3", "-2"])
         rc, out, err = core.run_cmd([os.path.join(d, "robsd-step"), "-R", "-f", stepf, "-i", sel], stdin=content)
         rep = core.sanitizer_report(err)
         if rep or rc not in (0, 1):
